@@ -17,7 +17,7 @@ from gemdat.path import Pathway, free_energy_graph, optimal_path, optimal_percol
 from gemdat.volume import FreeEnergyVolume  # noqa: E402
 
 PID = 'C10'
-MODULES = ['GProofs.C10']
+MODULES = ['GProofs.C10', 'GProofs.C10Peak']
 METHODS = ['dijkstra', 'bellman-ford', 'minmax-energy', 'dijkstra-exp', 'simple']
 BIGF = 1.7976931348623157e308
 
@@ -237,6 +237,15 @@ def check_perc_case(out: Outcome, case, tag):
         if o[0] != 'none':
             # total_energy = node sum = edge cost + E(peak) (both ends are images of the peak)
             costs.append((core.dec_rat(o[0]) + Fraction(float(E[tuple(p)])), k))
+    # the scan over the supplied peaks (GModel.Labels.bestPeak; theorems bestPeak_min, bestPeak_none_iff, bestPeak_first)
+    by_peak = {k: c for c, k in costs}
+    bp = core.drive1(f'bestpeak {len(peaks)} ' + ' '.join(enc(by_peak[k]) if k in by_peak else 'none' for k in range(len(peaks)))).split()[1:]
+    if (bp == ['none']) != (not costs) or (costs and core.dec_rat(bp[1]) != min(costs)[0]):
+        out.fail('correspondence', 'model-best-peak', case, expected=str(min(costs)[0]) if costs else 'none', observed=bp)
+    elif costs and best is not None and tuple(int(x) for x in best.sites[0]) != tuple(int(x) for x in peaks[int(bp[0])]):
+        # ties between peaks: the first supplied peak of minimal cost is the one returned
+        out.fail('property' if Fraction(float(best.total_energy)) != core.dec_rat(bp[1]) else 'correspondence', 'model-best-peak-choice', case,
+                 expected=[int(x) for x in peaks[int(bp[0])]], observed=[int(x) for x in best.sites[0]])
     if not costs:
         if best is not None:
             out.fail('property', 'percolation-path-through-inadmissible-voxels', case, observed=[tuple(map(int, s)) for s in best.sites])
@@ -328,7 +337,8 @@ SPEC = PropertySpec(
           'implementation: end points, every step between admissible neighbours of the periodic grid (Lean validPath on the move table '
           'regenerated from path.py), reported energies = grid values, total_energy = node sum, cost of the returned path = the '
           'optimum certified by a feasible potential (exact rationals) for sum / steps / bottleneck, independent float Bellman-Ford for '
-          'exp weights; percolating path = cheapest over peaks to the image exactly one cell away, wrapped / fractional coordinates '
+          'exp weights; percolating path = cheapest over ALL supplied peaks to the image exactly one cell away (30/300 grids 5x4x5 with one '
+          'peak enclosed in a pocket of blocked voxels, listed at a random position among peaks of open channels), wrapped / fractional coordinates '
           'inside the original grid on every axis. Non-trivial: optimal path of >= 3 steps, >= 1 blocked voxel, unequal axes.'),
     trusted=['networkx shortest paths are NOT trusted: the returned path is checked against a potential whose feasibility the model re-checks edge by edge',
              'np.exp for dijkstra-exp weights (tolerance 1e-9)', 'harness/translate.py extraction of the move tables'],
